@@ -1,7 +1,7 @@
 (** Executable instantiation of the wire models (protobuf codec := identity on bodies) and
     the comparators used by the generated case files of C13.  Nothing here is used by a
     theorem. *)
-From Wharf Require Import Base.Prelude Wire.Uvarint Wire.Frame Wire.Reader.
+From Wharf Require Import Base.Prelude Wire.Uvarint Wire.Frame Wire.Reader Wire.Rewind.
 Local Open Scope N_scope.
 
 Definition id_unmarshal (b : list byte) : option (list byte) := Some b.
@@ -75,17 +75,25 @@ Definition cut (p n cls : N) : N * N * N := (p, n, cls).
 Definition mismatches_frame (cs : list frame_case) : list N :=
   ids (fun c => let '(id, _, _, _, _) := c in id) frame_ok cs.
 
-(* ---- reader with checkpoints ---- *)
+(* ---- reader with checkpoints, possibly resumed while in use (Wire/Rewind.v) ---- *)
 Inductive ores := RMsg (fp : N * N) | RErr (cls : N).
-Inductive oev := EWant | EPop (c : option (N * option N)) | ERead (r : ores).
+Inductive oev := EWant | EPop (c : option (N * option N)) | ERead (r : ores) | ERes (ok : bool).
 
+(* a case: id, initial capacity, bodies, operations, observed emissions of a decompressing source
+   (index of the operation - a read, or a Resume that discards - during which the reader received a source checkpoint, the offset
+   it describes, the offset at which a fresh source restarts from it; None = seek source, the
+   model predicts the emissions), observed event + reader state after every operation,
+   resumptions by fresh readers (index of the pop, fingerprints of the messages read, end) *)
 Definition ckpt_case :=
-  (N * N * list (list (N * N)) * list op * option (list (N * N * N * N)) * list (oev * (N * N * N)) * list (N * list (N * N) * N))%type.
+  (N * N * list (list (N * N)) * list xop * option (list (N * N * N)) * list (oev * (N * N * N)) * list (N * list (N * N) * N))%type.
 
-Definition table_beh (tbl : list (N * N * N * N)) : behaviour :=
-  fun before after =>
-    match find (fun row => let '(b, a, _, _) := row in (b =? before) && (a =? after)) tbl with
-    | Some (_, _, o, rs) => Some (mk_sc o rs)
+(* an observed emission is replayed only if it is within the contract of sources (beh_sound):
+   restart <= described offset <= offset after the read; otherwise the model does not emit and
+   the traces differ *)
+Definition table_behs (tbl : list (N * N * N)) : nat -> behaviour :=
+  fun i _ after =>
+    match find (fun row => let '(j, _, _) := row in j =? N.of_nat i) tbl with
+    | Some (_, o, rs) => if (rs <=? o) && (o <=? after) then Some (mk_sc o rs) else None
     | None => None
     end.
 
@@ -103,17 +111,19 @@ Definition oev_eqb (a b : oev) : bool :=
     (o1 =? o2) && match s1, s2 with Some x, Some y => x =? y | None, None => true | _, _ => false end
   | ERead (RMsg f1), ERead (RMsg f2) => n2_eqb f1 f2
   | ERead (RErr c1), ERead (RErr c2) => c1 =? c2
+  | ERes a, ERes b => Bool.eqb a b
   | _, _ => false
   end.
 
-Definition project (x : ev (M:=list N) * reader) : oev * (N * N * N) :=
+Definition project (x : xev (M:=list N) * reader) : oev * (N * N * N) :=
   let '(e, r) := x in
   (match e with
-   | EvWant _ => EWant
-   | EvPop None => EPop None
-   | EvPop (Some ck) => EPop (Some (mc_off ck, option_map sc_off (mc_src ck)))
-   | EvRead (ReadOk m) => ERead (RMsg (fp m))
-   | EvRead (ReadErr e) => ERead (RErr (err_class e))
+   | XE (EvWant _) => EWant
+   | XE (EvPop None) => EPop None
+   | XE (EvPop (Some ck)) => EPop (Some (mc_off ck, option_map sc_off (mc_src ck)))
+   | XE (EvRead (ReadOk m)) => ERead (RMsg (fp m))
+   | XE (EvRead (ReadErr e)) => ERead (RErr (err_class e))
+   | XRes _ ok => ERes ok
    end, (r_off r, r_cap r, save_code (r_save r))).
 
 Definition obs_eqb (a b : oev * (N * N * N)) : bool := oev_eqb (fst a) (fst b) && n3_eqb (snd a) (snd b).
@@ -123,32 +133,37 @@ Definition ckpt_ok (c : ckpt_case) : bool :=
   match write_bodies (map expand bodies) with
   | WPanic => false
   | WOk data =>
-    let beh := match tbl with None => seek_beh | Some t => table_beh t end in
+    let behs := match tbl with None => fun _ => seek_beh | Some t => table_behs t end in
     let r0 := new_reader cap0 data in
-    let tr := run id_unmarshal beh r0 ops in
+    let tr := xrun id_unmarshal behs [] r0 ops in
     list_eqb obs_eqb (map project tr) obs &&
     forallb (fun rs =>
       let '(j, fps, cls) := rs in
-      match nth_error tr (N.to_nat j) with
-      | Some (EvPop (Some ck), _) =>
+      match popped_at tr (N.to_nat j) with
+      | Some ck =>
         match resume r0 (Some ck) with
         | Some r => let '(ms, e) := read_all id_unmarshal seek_beh r in
                     list_eqb n2_eqb (map fp ms) fps && (err_class e =? cls)
         | None => match fps with [] => cls =? 5 | _ => false end
         end
-      | _ => false
+      | None => false
       end) resumes
   end.
 
-Definition mk_ckpt (id cap0 : N) (bodies : list (list (N * N))) (ops : list op) (tbl : option (list (N * N * N * N)))
+Definition mk_ckpt (id cap0 : N) (bodies : list (list (N * N))) (ops : list xop) (tbl : option (list (N * N * N)))
            (obs : list (oev * (N * N * N))) (resumes : list (N * list (N * N) * N)) : ckpt_case :=
   (id, cap0, bodies, ops, tbl, obs, resumes).
+Definition XW : xop := XO OWant.
+Definition XP : xop := XO OPop.
+Definition XR : xop := XO ORead.
+Definition xz (j : N) : xop := XZ (Some (N.to_nat j)).
+Definition xz_nil : xop := XZ None.
 Definition ob (e : oev) (off cap save : N) : oev * (N * N * N) := (e, (off, cap, save)).
 Definition pop_some (off sc : N) : oev := EPop (Some (off, Some sc)).
 Definition pop_nosrc (off : N) : oev := EPop (Some (off, None)).
 Definition rd_msg (l s : N) : oev := ERead (RMsg (l, s)).
 Definition rd_err (cls : N) : oev := ERead (RErr cls).
-Definition row (a b c d : N) : N * N * N * N := (a, b, c, d).
+Definition row (i o rs : N) : N * N * N := (i, o, rs).
 Definition rs (j : N) (fps : list (N * N)) (cls : N) : N * list (N * N) * N := (j, fps, cls).
 Definition mismatches_ckpt (cs : list ckpt_case) : list N :=
   ids (fun c => let '(id, _, _, _, _, _, _) := c in id) ckpt_ok cs.
